@@ -1,6 +1,7 @@
 (* C15: per-block price band.  Statements only. *)
 From MP.Model Require Import Prelude U128 SInt Feed Vamm VammOps Token World Engine Runtime.
-From MP.Proofs Require Import Tactics SIntFacts VammFacts SwapFacts MoreFacts BandFacts Scenario.
+From MP.Proofs Require Import Tactics SIntFacts VammFacts SwapFacts MoreFacts BandFacts.
+From MP.Model Require Import Scenario.
 
 (* with a non-zero limit, a trade that may not go over the limit (every opening / increasing /
    reducing swap_input of OpenPosition) is accepted only if the price before it and the price after
